@@ -9,71 +9,92 @@ static inline cstl_tp TV(exp_o)(TV_C o, uint64_t k) { return TV(exp)(&o, k); }
 static inline bool TV(live)(const TV_C *c, uint64_t k, cstl_tp now) { return TV(has)(c, k) && now < TV(exp)(c, k); }
 static inline bool TV(live_o)(TV_C o, uint64_t k, cstl_tp now) { return TV(live)(&o, k, now); }
 static inline bool TV(dead_o)(TV_C o, uint64_t k, cstl_tp now) { return TV(has)(&o, k) && now >= TV(exp)(&o, k); }
-/* entry under g untouched: presence, value and deadline */
-static inline bool TV(keptx)(TV_C o, const TV_C *n, uint64_t g)
+/* ---- the view of one key, computed once per (state, key) ------------------------------------------ */
+typedef struct { bool has; uint64_t val; cstl_tp exp; uint64_t ord; } TV(vw);
+static inline TV(vw) TV(view)(const TV_C *c, uint64_t k)
 {
-    return TV(kept)(o, n, g) && (!TV(has)(&o, g) || TV(exp)(n, g) == TV(exp)(&o, g));
+    TV(vw)   r;
+    uint64_t s = TV(slot)(c, k);
+    r.has = s < MAXCAP;
+    r.val = r.has ? c->m_elements.data[s].m_value : 0;
+    r.exp = r.has ? c->m_elements.data[s].m_expire_time : 0;
+    r.ord = r.has ? TV(ord)(c, k) : SPEC_NONE;
+    return r;
 }
-static inline bool TV(samex)(TV_C o, const TV_C *n, uint64_t g) { return TV(keptx)(o, n, g) && TV(ord_same)(o, n, g); }
-/* the key that was resident in o and is not in n (first by rank); SPEC_NONE if there is none */
-static inline uint64_t TV(lost)(TV_C o, const TV_C *n)
+/* entry untouched: presence, value and deadline */
+static inline bool TV(vw_keptx)(TV(vw) a, TV(vw) b) { return b.has == a.has && (!a.has || (b.val == a.val && b.exp == a.exp)); }
+static inline bool TV(vw_same)(TV(vw) a, TV(vw) b) { return TV(vw_keptx)(a, b) && b.ord == a.ord; }
+static inline bool TV(keptx)(TV_C o, const TV_C *n, uint64_t g) { return TV(vw_keptx)(TV(view)(&o, g), TV(view)(n, g)); }
+/* rank (in o) of the first key that was resident in o and is not in n; MAXCAP if there is none.
+ * (A rank, not a key: every uint64_t is a legal key, so no key value can serve as "none".) */
+static inline uint64_t TV(lost_rank)(TV_C o, const TV_C *n)
 {
     for (uint64_t r = 0; r < MAXCAP; r++)
         if (r < o.m_used_size)
         {
             uint64_t k = TV(key_at)(&o, r);
-            if (!TV(has)(n, k)) return k;
+            if (!TV(has)(n, k)) return r;
         }
-    return SPEC_NONE;
+    return MAXCAP;
 }
-/* eviction rule of tlru/utlru (C16, C10): the lost key v was resident; if ANY resident (ghost h) had
- * expired at `now`, v had expired; if v was still live it was the least recently used entry */
-static inline bool TV(victim_rule)(TV_C o, const TV_C *n, cstl_tp now, uint64_t h)
+static inline bool TV(lost_any)(TV_C o, const TV_C *n) { return TV(lost_rank)(o, n) < MAXCAP; }
+static inline uint64_t TV(lost)(TV_C o, const TV_C *n) { return TV(key_at)(&o, TV(lost_rank)(o, n)); }
+/* eviction rule of tlru/utlru (C16, C10) for the lost key (rank lr, deadline le): if ANY resident (view oh)
+ * had expired at `now`, the victim had expired; if the victim was still live it was the least recently used */
+static inline bool TV(vrule)(uint64_t used, uint64_t lr, cstl_tp le, cstl_tp now, TV(vw) oh)
 {
-    uint64_t v = TV(lost)(o, n);
-    if (v == SPEC_NONE) return false;
-    if (TV(dead_o)(o, h, now) && !(now >= TV(exp)(&o, v))) return false;
-    if (now < TV(exp)(&o, v) && TV(ord)(&o, v) != o.m_used_size - 1) return false;
+    if (oh.has && now >= oh.exp && !(now >= le)) return false;
+    if (now < le && lr != used - 1) return false;
     return true;
 }
-/* state after INSERT of a new key k (value v, deadline e) at `now`, observed at g */
-static inline bool TV(tins_has)(TV_C o, const TV_C *n, uint64_t k, uint64_t g)
+static inline bool TV(victim_rule)(TV_C o, const TV_C *n, cstl_tp now, uint64_t h)
 {
-    bool evicted = TV(full)(&o) && g == TV(lost)(o, n);
-    return TV(has)(n, g) == (g == k ? true : evicted ? false : TV(has)(&o, g));
+    uint64_t lr = TV(lost_rank)(o, n);
+    if (lr >= MAXCAP) return false;
+    return TV(vrule)(o.m_used_size, lr, TV(exp)(&o, TV(key_at)(&o, lr)), now, TV(view)(&o, h));
 }
-static inline bool TV(tins_val)(TV_C o, const TV_C *n, uint64_t k, uint64_t v, cstl_tp e, uint64_t g)
-{
-    if (!TV(has)(n, g)) return true;
-    return TV(val)(n, g) == (g == k ? v : TV(val)(&o, g)) && TV(exp)(n, g) == (g == k ? e : TV(exp)(&o, g));
-}
-static inline bool TV(tins_ord)(TV_C o, const TV_C *n, uint64_t k, uint64_t g)
-{
-    uint64_t og = TV(ord)(&o, g);
-    uint64_t lost = TV(full)(&o) ? TV(lost)(o, n) : SPEC_NONE;
-    uint64_t ov = lost == SPEC_NONE ? SPEC_NONE : TV(ord)(&o, lost);
-    return TV(ord)(n, g) == (g == k ? 0 : (og == SPEC_NONE || g == lost) ? SPEC_NONE : og + (og < ov ? 1 : 0));
-}
+/* state after INSERT of a new key k (value v, deadline e) at `now`, observed at g (and h for the victim rule) */
 static inline bool TV(tins_all)(TV_C o, const TV_C *n, uint64_t k, uint64_t v, cstl_tp now, cstl_tp e, uint64_t g, uint64_t h)
 {
-    return TV(tins_has)(o, n, k, g) && TV(tins_has)(o, n, k, k) && TV(tins_val)(o, n, k, v, e, g) && TV(tins_val)(o, n, k, v, e, k)
-           && TV(tins_ord)(o, n, k, g) && TV(tins_ord)(o, n, k, k) && TV(ins_size)(o, n)
-           && (!TV(full)(&o) || (TV(lost)(o, n) != k && TV(victim_rule)(o, n, now, h) && TV(victim_rule)(o, n, now, g)));
+    bool   full = TV(full)(&o);
+    TV(vw) og = TV(view)(&o, g), ng = TV(view)(n, g), nk = TV(view)(n, k), oh = TV(view)(&o, h);
+    if (!(nk.has && nk.val == v && nk.exp == e && nk.ord == 0)) return false;
+    if (n->m_used_size != (full ? o.m_elements.size : o.m_used_size + 1)) return false;
+    if (!full)
+        return g == k || (TV(vw_keptx)(og, ng) && ng.ord == (og.has ? og.ord + 1 : SPEC_NONE));
+    uint64_t lr = TV(lost_rank)(o, n);
+    if (lr >= MAXCAP) return false;
+    uint64_t lk = TV(key_at)(&o, lr);
+    cstl_tp  le = TV(exp)(&o, lk);
+    if (!(TV(vrule)(o.m_used_size, lr, le, now, oh) && TV(vrule)(o.m_used_size, lr, le, now, og))) return false;
+    if (g == k) return true;
+    if (g == lk) return !ng.has;
+    return TV(vw_keptx)(og, ng) && ng.ord == (og.has ? og.ord + (og.ord < lr ? 1 : 0) : SPEC_NONE);
 }
 /* state after UPDATE of resident key k */
 static inline bool TV(tupd_all)(TV_C o, const TV_C *n, uint64_t k, uint64_t v, cstl_tp e, uint64_t g)
 {
-    return TV(has)(n, k) && TV(val)(n, k) == v && TV(exp)(n, k) == e && (g == k || TV(keptx)(o, n, g))
-           && TV(ord_use)(o, n, k, g) && TV(ord_use)(o, n, k, k) && TV(size_same)(o, n);
+    TV(vw) ok = TV(view)(&o, k), nk = TV(view)(n, k), og = TV(view)(&o, g), ng = TV(view)(n, g);
+    if (!(nk.has && nk.val == v && nk.exp == e && nk.ord == 0 && n->m_used_size == o.m_used_size)) return false;
+    return g == k || (TV(vw_keptx)(og, ng) && ng.ord == (og.has ? og.ord + (og.ord < ok.ord ? 1 : 0) : SPEC_NONE));
+}
+/* state after a USE (non-peek hit) of resident key k: as an update that keeps value and deadline */
+static inline bool TV(tuse_all)(TV_C o, const TV_C *n, uint64_t k, uint64_t g)
+{
+    TV(vw) ok = TV(view)(&o, k), nk = TV(view)(n, k), og = TV(view)(&o, g), ng = TV(view)(n, g);
+    if (!(TV(vw_keptx)(ok, nk) && nk.ord == 0 && n->m_used_size == o.m_used_size)) return false;
+    return g == k || (TV(vw_keptx)(og, ng) && ng.ord == (og.has ? og.ord + (og.ord < ok.ord ? 1 : 0) : SPEC_NONE));
 }
 /* state after ERASE of resident key k */
 static inline bool TV(tdel_all)(TV_C o, const TV_C *n, uint64_t k, uint64_t g)
 {
-    return !TV(has)(n, k) && (g == k || TV(keptx)(o, n, g)) && TV(ord_del)(o, n, k, g) && TV(size)(n) + 1 == TV(size)(&o);
+    TV(vw) ok = TV(view)(&o, k), og = TV(view)(&o, g), ng = TV(view)(n, g);
+    if (TV(has)(n, k) || n->m_used_size + 1 != o.m_used_size) return false;
+    return g == k || (TV(vw_keptx)(og, ng) && ng.ord == (og.has ? og.ord - (og.ord > ok.ord ? 1 : 0) : SPEC_NONE));
 }
 static inline bool TV(noop_all)(TV_C o, const TV_C *n, uint64_t k, uint64_t g)
 {
-    return TV(samex)(o, n, g) && TV(samex)(o, n, k) && TV(size_same)(o, n);
+    return TV(vw_same)(TV(view)(&o, g), TV(view)(n, g)) && TV(vw_same)(TV(view)(&o, k), TV(view)(n, k)) && n->m_used_size == o.m_used_size;
 }
 /* does insert(k, a) at `now` succeed? (C09: allow::insert succeeds iff k has no LIVE entry; allow::update
  * iff k is resident -- an expired-but-unreaped entry counts, which C09 permits) */
@@ -84,16 +105,14 @@ static inline bool TV(ins_ok)(TV_C o, uint64_t k, cstl_tp now, uint64_t a)
 /* lookup of k at `now`: result and effect */
 static inline bool TV(find_post)(TV_C o, const TV_C *n, uint64_t k, cstl_tp now, int peek, cstl_opt r, uint64_t g)
 {
-    if (TV(live)(&o, k, now))
+    TV(vw) ok = TV(view)(&o, k);
+    if (ok.has && now < ok.exp)
     {
-        if (!(r.has && r.v == TV(val)(&o, k))) return false;
-        if (!(TV(keptx)(o, n, g) && TV(keptx)(o, n, k) && TV(size_same)(o, n))) return false;
-        if (peek == cappuccino_peek_no) return TV(ord_use)(o, n, k, g) && TV(ord_use)(o, n, k, k);
-        return TV(ord_same)(o, n, g) && TV(ord_same)(o, n, k);
+        if (!(r.has && r.v == ok.val)) return false;
+        return peek == cappuccino_peek_no ? TV(tuse_all)(o, n, k, g) : TV(noop_all)(o, n, k, g);
     }
     if (r.has) return false;
-    if (TV(has)(&o, k)) return TV(tdel_all)(o, n, k, g); /* expired: removed on the spot */
-    return TV(noop_all)(o, n, k, g);
+    return ok.has ? TV(tdel_all)(o, n, k, g) /* expired: removed on the spot */ : TV(noop_all)(o, n, k, g);
 }
 /* time arithmetic of the public entry points */
 static inline bool TV(ttl_ok)(cstl_tp now, cstl_ms ttl) { return ttl >= 0 && ttl <= (INT64_MAX / 1000000) && now >= 0 && now <= INT64_MAX - ttl * 1000000; }
